@@ -10,7 +10,7 @@ from core import corr, oracle
 from lib import coop, concstack
 
 PID = "C11"
-GEN = ["conccfg"]
+GEN = ["conccfg", "sendbufcfg"]
 LEAN_MODULES = ["YowsupVerif.Props.C11"]
 RULE = ("2-4 sender threads with 1-4 stanzas each through the real coder, noise (counting cipher stand-in), segments layers; schedules chosen at random at "
         "every scheduling point (lock acquire / release, encryption, stream put / get, network write); thorough: additionally ALL schedules of 2 threads x 1-2 "
@@ -40,6 +40,8 @@ def cases(chk):
             sid[0] += 1
             return sid[0]
         yield "random", {"work": [[fresh() for _i in range(r.randint(1, 4))] for _t in range(nt)], "seed": r.randrange(1 << 30)}
+    for _ in range(chk.scale(60, 1500)):
+        yield "dispatcher", {"frames": [r.randint(1, 40) for _i in range(r.randint(1, 5))], "flushes": r.randint(1, 6), "seed": r.randrange(1 << 30)}
     if not chk.quick():
         for work in ([[1], [2]], [[1, 2], [3]], [[1], [2], [3]]):
             yield "exhaustive", {"work": work}
@@ -152,8 +154,85 @@ def check_run(chk, case, c, writes, L, err, label):
     return fails
 
 
+def run_dispatcher(chk, case):
+    """the real AsyncoreConnectionDispatcher over a socket pair: a sender thread calling sendData per frame and the asyncore loop
+    thread's handle_write, scheduled at the lock operations and at the socket send; the peer reads the bytes"""
+    import random
+    import asyncore
+    from gen import sendbufcfg
+    import yowsup.layers.network.dispatcher.dispatcher_asyncore as DA
+    fails = []
+    r = random.Random(case["seed"])
+    if getattr(DA, "threading", None) is not None:
+        DA.threading = coop._ThreadingProxy()
+    disp, a, b = sendbufcfg.make_dispatcher()
+    b.setblocking(False)
+    frames = [bytes(bytearray((i * 37 + j) % 251 for j in range(n))) for i, n in enumerate(case["frames"])]
+    real_send = asyncore.dispatcher.send
+
+    def send(self, data):
+        coop.point()
+        n = real_send(self, data)
+        coop.log(("sent", bytes(data[:n])))
+        return n
+    asyncore.dispatcher.send = send
+    c = coop.Coop()
+
+    def sender():
+        for f in frames:
+            disp.sendData(f)
+            coop.log(("sendData", f))
+
+    def loop():
+        for _ in range(case["flushes"]):
+            coop.point()
+            if disp.writable():
+                disp.handle_write()
+    c.spawn(sender)
+    c.spawn(loop)
+    err = None
+    try:
+        c.run(coop.chooser(r))
+        # what the loop thread would do next: flush the rest
+        for _ in range(4):
+            if len(disp.out_buffer):
+                disp.handle_write()
+    except coop.Deadlock as e:
+        err = e
+    finally:
+        asyncore.dispatcher.send = real_send
+    got = bytearray()
+    while True:
+        try:
+            d = b.recv(65536)
+        except Exception:
+            break
+        if not d:
+            break
+        got += d
+    try:
+        disp.del_channel()
+    except Exception:
+        pass
+    a.close()
+    b.close()
+    ctx = "frames of %s bytes, %d loop iterations, schedule %s" % (case["frames"], case["flushes"], c.choices)
+    chk.hit("dispatcher:frames:%d" % len(frames))
+    if err is not None:
+        fails.append(oracle("C11:dispatcher-deadlock", "%s: %s" % (ctx, err)))
+        return fails
+    want = b"".join(frames)
+    if bytes(got) != want:
+        kind = "duplicated" if len(got) > len(want) else "lost-or-altered"
+        fails.append(oracle("C11:socket-bytes-%s" % kind, "%s: the peer received %d bytes, the frames handed to sendData are %d bytes; first difference at offset %d"
+                            % (ctx, len(got), len(want), next((i for i, (x, y) in enumerate(zip(got, want)) if x != y), min(len(got), len(want))))))
+    return fails
+
+
 def run_case(chk, stream, case):
     import random
+    if stream == "dispatcher":
+        return run_dispatcher(chk, case)
     if stream == "random":
         r = random.Random(case["seed"])
         c, writes, L, err = execute(case["work"], coop.chooser(r))
